@@ -497,7 +497,15 @@ class Extractor:
             return 'var:' + e.id
         return '?'
 
-    def _sink_of_var(self, name: str, fn: ast.AST) -> str:
+    def _sink_of_var(self, name: str, fn: ast.AST, depth: int = 0) -> str:
+        # a local that only holds packed bytes on their way into a buffer (`packed = fmt.pack(...); buf.write(packed)`) goes where the buffer goes
+        if depth < 3:
+            for n in walk_no_nested(fn):
+                if isinstance(n, ast.Call) and isinstance(n.func, ast.Attribute) and n.func.attr in ('write', 'append', 'extend') and len(n.args) == 1 and dotted(n.args[0]) == name \
+                        and isinstance(n.func.value, ast.Name) and n.func.value.id != name:
+                    r = self._sink_of_var(n.func.value.id, fn, depth + 1)
+                    if not r.startswith('var:'):
+                        return r
         for n in walk_no_nested(fn):
             if isinstance(n, ast.Assign):
                 for t in n.targets:
